@@ -287,6 +287,7 @@ static int sim_getpwuid_r(uid_t uid, struct passwd *pwd, char *buf, size_t len, 
 struct passwd *getpwuid(uid_t uid) {
     if (!sim_active()) return REAL(getpwuid)(uid);
     static struct passwd pw; static char b[512]; struct passwd *res;   // one buffer for all threads, as in glibc
+    { SimScope sc; sim_event("nonreentrant", "getpwuid"); }
     int r = sim_getpwuid_r(uid, &pw, b, sizeof b, &res); if (r) { errno = r; return nullptr; } return res;
 }
 static int sim_getgrgid_r(gid_t gid, struct group *grp, char *buf, size_t len, struct group **res);
@@ -314,6 +315,7 @@ static int sim_getgrgid_r(gid_t gid, struct group *grp, char *buf, size_t len, s
 struct group *getgrgid(gid_t gid) {
     if (!sim_active()) return REAL(getgrgid)(gid);
     static struct group gr; static char b[512]; struct group *res;
+    { SimScope sc; sim_event("nonreentrant", "getgrgid"); }
     int r = sim_getgrgid_r(gid, &gr, b, sizeof b, &res); if (r) { errno = r; return nullptr; } return res;
 }
 static int sim_getlogin_r(char *buf, size_t len);
@@ -333,6 +335,7 @@ static int sim_getlogin_r(char *buf, size_t len) {
 }
 char *getlogin(void) {
     if (!sim_active()) return REAL(getlogin)();
+    { SimScope sc; sim_event("nonreentrant", "getlogin"); }
     static char b[256]; int r = sim_getlogin_r(b, sizeof b); if (r) { errno = r; return nullptr; } return b;
 }
 
@@ -428,6 +431,7 @@ static int sim_ttyname_r(int fd, char *buf, size_t len) {
 }
 char *ttyname(int fd) {
     if (!sim_active()) return REAL(ttyname)(fd);
+    { SimScope sc; sim_event("nonreentrant", "ttyname"); }
     static char b[256]; int r = sim_ttyname_r(fd, b, sizeof b); if (r) { errno = r; return nullptr; } return b;
 }
 static __thread size_t t_ut_cursor;
